@@ -1,10 +1,6 @@
 """Reasons for properties not claimed (kept current by hand; see DESIGN.md section 6)."""
 REASONS = {
-    "C03": "whole pipeline encoder->autofill->serialiser->validator over all configurations and pictures: a composition of hundreds of functions over heap structures, generators and third-party code; no per-function contract within reach expresses it (component lemmas are claimed under C11-C14/C20)",
     "C05": "same pipeline plus ~20 test-case generators mutating description trees; equality of decoded pictures across two pipeline runs is relational over whole programs, not a per-call contract",
-    "C15": "header generation is a search over generators/partials/constraint-table dictionaries compared with a second program (the decoder); both ends are outside the verifiable subset and the property is relational across them",
     "C16": "quantifies over arbitrary level tables swapped into module globals and relates the encoder's search through them to the validator's incremental checks; both programs are outside the subset and no function-level contract relates the two",
-    "C22": "numpy floating-point colour conversion; contract-based deductive verification over SMT integers is silent on floating point",
     "C24": "schedules, processes and hash seeds: concurrency and environment, not call contracts; this family has no handle on it",
-    "C26": "1100-line CLI with string formatting and terminal I/O; 'never internal error' is exception-freedom of code that is ~90% outside the verifiable subset",
 }
